@@ -12,7 +12,10 @@ if os.path.exists(os.path.join(V, "coq/theories/Gen/.stamp")):
 gen = open(os.path.join(V, "coq/theories/Gen/Printers.v")).read()
 i = gen.index("Definition printers : list printer := [")
 body = gen[i + len("Definition printers : list printer := ["):]
-body = body[:body.rindex("].")]
+if "].\nDefinition asm_rest" in body:
+    body = body[:body.index("].\nDefinition asm_rest")]   # the rest of package asm is a table of its own, not reviewed
+else:
+    body = body[:body.rindex("].")]
 head = '''(* Reviewed copy of the regenerated table Gen/Printers.v (data only; the term types are those of
    Gen/Printers.v).  Produced from the translator's output by tools/mkreviewed.py; changed only by hand, with the
    reason, when the code legitimately changes.  printers_match is the proof obligation that the code
